@@ -104,7 +104,7 @@ func (g *Gen) tplLineProbes() []L.Stmt {
 			// a function spread over lines: linedefined / lastlinedefined, and currentline inside it
 			f := g.fresh("lf")
 			body := g.stmts(1+g.n(3, "lfstmts"), 1)
-			body = append(body, emitline(curline()), ret(call(name("here"))))
+			body = append(body, emitline(curline()), local1("hl", call(name("here"))), ret(name("hl")))
 			out = append(out, local1(f, fn([]string{"p"}, false, blk(body...))),
 				local1(f+"i", call(field(name("debug"), "getinfo"), name(f), str("S"))),
 				emitline(field(name(f+"i"), "linedefined"), field(name(f+"i"), "lastlinedefined")), emitline(call(name(f), num(1))))
